@@ -152,7 +152,7 @@ pub fn record_trace(args: &[String]) -> i32 {
     let ops = arg_u64(args, "--ops", 2000);
     let mut out = Out::new(&arg_value(args, "--out").unwrap_or("-".into()));
     let mut rng = Rng::new(seed);
-    let codes: [i64; 12] = [-100, -113, -222, -350, -400, -800, 1, 7, 32767, -32768, -300, -225];
+    let codes: [i64; 16] = [-100, -113, -222, -350, -400, -800, 1, 7, 32767, -32768, -300, -225, 0, 0, -42, -99];
     for cap in CAPS {
         let mut q = new_queue(cap);
         out.put(&json!({"ev": "reset", "cap": cap}));
